@@ -139,7 +139,7 @@ class SymInt:
     @property
     def __class__(self): return int
     def _bin(self, o, f, r = False):
-        if isinstance(o, (_rdt.timedelta, SymTimedelta, SymFloat)) or builtins.type(o) is float: return NotImplemented
+        if isinstance(o, (_rdt.timedelta, SymTimedelta, SymFloat)) or isinstance(o, builtins.float): return NotImplemented
         z = zi(o)
         if z is None: return NotImplemented
         return mkint(f(z, self.e) if r else f(self.e, z))
@@ -186,7 +186,7 @@ class SymInt:
     def __pos__(self): return self
     def __abs__(self): return mkint(z3.If(self.e >= 0, self.e, -self.e))
     def _cmp(self, o, f):
-        if isinstance(o, SymFloat) or builtins.type(o) is float: return NotImplemented
+        if isinstance(o, SymFloat) or isinstance(o, builtins.float): return NotImplemented
         z = zi(o)
         if z is None: return NotImplemented
         return mkbool(f(self.e, z))
@@ -197,7 +197,7 @@ class SymInt:
     def __eq__(self, o):
         r = self._cmp(o, lambda a, b: a == b)
         if r is NotImplemented:
-            if isinstance(o, SymFloat) or builtins.type(o) is float: return tofloat(o).__eq__(self)
+            if isinstance(o, SymFloat) or isinstance(o, builtins.float): return tofloat(o).__eq__(self)
             return False
         return r
     def __ne__(self, o): return sym_not(self.__eq__(o))
